@@ -78,7 +78,6 @@ Definition LInv (i : Z) (prev next : list Z) (last exp : list (Z * Z)) : Prop :=
       -1 <= nthZ next j /\
       forall i', 0 <= i' -> (nthZ next j = i' <-> (linked spr all j i' /\ i' < i))).
 
-Definition rec_wf (r : rec) : Prop := 0 <= r_ch r /\ (r_reci r <> 0 -> r_time r <> 0).
 
 (* a link into i comes from the latest earlier record of i's channel *)
 Lemma linked_latest j i : linked spr all j i -> latest i (chn i) j.
